@@ -182,6 +182,23 @@ def _run_case(case: dict) -> Outcome:
     if not env.exact_fields(second, msg):
         return fail("second-decode-aliases-first", f"second load({dumped!r}) = {env.msg_fields(second)} after the caller modified the first result", classes=classes)
 
+    # a decoded message edited by the application (answering an echo, changing a value) encodes to what it says NOW
+    import copy as _copy
+
+    for how in ("edit", "copy-edit"):
+        try:
+            decoded = schema.load(dumped)
+            if how == "copy-edit":
+                decoded = _copy.copy(decoded)
+            decoded.ack = 1 - ack
+            decoded.payload = payload + ";edited"
+            redumped = schema.dump(decoded)
+        except Exception as err:  # noqa: BLE001
+            return fail(f"dump-of-edited-raises:{type(err).__name__}", f"dump of an edited decoded message raised {err!r}", classes=classes)
+        want_edit = ref_format(node, child, command, 1 - ack, mtype, payload + ";edited")
+        if redumped != want_edit:
+            return fail(f"dump-of-edited-decoded-message:{how}", f"load({dumped!r}), then ack={1 - ack} and payload+=';edited', dumps as {redumped!r}, expected {want_edit!r}", classes=classes)
+
     # (B) decode(line) re-encodes to the line up to trailing whitespace
     line = expected_line[:-1] + ending
     try:
